@@ -4,7 +4,7 @@
    crate shares shows up as implementation <> model and as implementation(combined) <> implementation(solitary),
    which is what ./vp check C14 compares on every generated re-subscription scenario. *)
 From Coq Require Import List ZArith Bool Arith.
-From RX Require Import Val Syntax World Step.
+From RX Require Import Val Syntax World Step Oracle.
 From RXP Require Import Private.
 Import ListNotations.
 
@@ -43,5 +43,5 @@ Definition c14_example : scenario :=
      sc_script := [DSub 0 (PRef 0) []; DSub 1 (PRef 0) []] |}.
 Example C14_example_logs :
   let w := snd (run_scenario 1000 c14_example) in
-  Oracle.ulog (uenc (UTop 0)) (log w) = [Nx (VInt 1); Nx (VInt 3)] /\ Oracle.ulog (uenc (UTop 1)) (log w) = [Nx (VInt 5); Co].
+  ulog (uenc (UTop 0)) (log w) = [Nx (VInt 1); Nx (VInt 3)] /\ ulog (uenc (UTop 1)) (log w) = [Nx (VInt 5); Co].
 Proof. vm_compute. split; reflexivity. Qed.
